@@ -61,6 +61,15 @@ func main() {
 	for i := 0; i < nA; i++ {
 		itemsA = append(itemsA, indexHistory(c, seed*1_000_003+int64(i), rep))
 	}
+	// lifecycle: the registry (with live books) survives a genesis export + import through the real application-level path;
+	// the second history has more registered pairs than one page of the pair query holds
+	if mode != "search" || os.Getenv("VERIF_LIFECYCLE") != "" {
+		for i, lh := range lifecycleHistories() {
+			lh.Seed = seed*1_000_003 + 800_000 + int64(i)
+			itemsA = append(itemsA, execIndex(c, lh, lib.NewRand(lh.Seed), lh.Ops, rep))
+			rep.Count(fmt.Sprintf("lifecycle:export-import:%d-extra-pairs", lh.Extra))
+		}
+	}
 	m := setupMixed(c, x)
 	// the machine-checked witness of P_Erc20.v first, then generated programs
 	itemsB = append(itemsB, m.run(&MixCase{N: 100, P: 40, Q: 25, Prog: []MInstr{{K: "Transfer", X: 30}, {K: "BridgeCall", X: 50}}, Seed: -1}, rep))
@@ -107,8 +116,27 @@ type IOp struct {
 }
 
 type IHistory struct {
-	Seed int64 `json:"hist_seed"`
-	Ops  []IOp `json:"ops"`
+	Seed  int64 `json:"hist_seed"`
+	Own   bool  `json:"own_chain,omitempty"`   // lifecycle history: runs on a chain of its own (export/import needs committed state)
+	Extra int   `json:"extra_pairs,omitempty"` // scale: that many further module-owned pairs registered (through the keeper) first
+	Ops   []IOp `json:"ops"`
+}
+
+func lifecycleHistories() []*IHistory {
+	return []*IHistory{
+		{Own: true, Ops: []IOp{
+			{K: "RegisterCoin", Base: 10, Aliases: []int{11, 12}}, {K: "RegisterERC20", Base: 20, Aliases: []int{13}}, {K: "Toggle", Key: 20},
+			{K: "Fund", Denom: 10}, {K: "Fund", Denom: 0},
+			{K: "ExportImport"},
+			{K: "UpdateAlias", Denom: 10, Alias: 14}, {K: "Toggle", Key: 20}, {K: "RegisterCoin", Base: 30, Aliases: []int{15}},
+			{K: "UpdateAlias", Denom: 10, Alias: 11}, {K: "Remove", Denom: 30}, {K: "RegisterCoin", Base: 30, Aliases: []int{11}},
+		}},
+		{Own: true, Extra: 104, Ops: []IOp{
+			{K: "RegisterCoin", Base: 10, Aliases: []int{11}}, {K: "Fund", Denom: 10}, {K: "Fund", Denom: 0},
+			{K: "ExportImport"},
+			{K: "Toggle", Key: 10}, {K: "RegisterCoin", Base: 20, Aliases: []int{11}}, // (the alias of tka is accepted as an alias of tkb: C08-2)
+		}},
+	}
 }
 
 // universe: denoms 10,20,30 are bases (symbols TKA TKB TKC); 11..15 are alias denoms
@@ -127,6 +155,9 @@ func denomID(s string) (int, bool) {
 }
 
 type idxWorld struct {
+	own     bool
+	rep     *lib.Report
+	h       *IHistory
 	c       *lib.Chain
 	contrID map[common.Address]int
 	contrs  []common.Address // id 500+i
@@ -164,6 +195,10 @@ func (o IOp) Coq() string {
 		return fmt.Sprintf("(IUpdateAlias %d %d)", o.Denom, o.Alias)
 	case "Remove":
 		return fmt.Sprintf("(IRemove %d)", o.Denom)
+	case "ExportImport":
+		return "IExportImport"
+	case "Fund":
+		return fmt.Sprintf("(* fund %d *)", o.Denom)
 	}
 	panic(o.K)
 }
@@ -331,22 +366,34 @@ func indexHistory(c *lib.Chain, hseed int64, rep *lib.Report) string {
 }
 
 func execIndex(c *lib.Chain, h *IHistory, r *lib.Rand, fixed []IOp, rep *lib.Report) string {
-	base := c.Ctx
-	branch, _ := base.CacheContext()
-	c.Ctx = branch
-	defer func() { c.Ctx = base }()
-	w := &idxWorld{c: c, contrID: map[common.Address]int{}, user: lib.EthKey(c.Seed, "idxuser", 0)}
+	if h.Own {
+		// a chain of its own: the operations go on its block context directly, ExportImport commits and restarts it
+		c = lib.NewChain(c.Seed*31+h.Seed%1000+7, 1, nil)
+		lib.Must(c.NextBlock())
+	} else {
+		base := c.Ctx
+		branch, _ := base.CacheContext()
+		c.Ctx = branch
+		defer func() { c.Ctx = base }()
+	}
+	w := &idxWorld{own: h.Own, rep: rep, h: h, c: c, contrID: map[common.Address]int{}, user: lib.EthKey(c.Seed, "idxuser", 0)}
 	c.EnsureAccount(c.Ctx, w.user.Acc())
+	for i := 0; i < h.Extra; i++ {
+		sym := fmt.Sprintf("XT%c%c%c", 'A'+i/26/26%26, 'A'+i/26%26, 'A'+i%26)
+		_, err := c.App.Erc20Keeper.RegisterNativeCoin(c.Ctx, fxtypes.GetCrossChainMetadataManyToOne("extra "+sym, sym, 18))
+		lib.Must(err)
+	}
 	n := 8 + r.Pick(9)
 	if fixed != nil {
 		n = len(fixed)
 	}
 	var steps []string
 	accepted := 0
+	imported, aliasLost := false, false
 	registered := func() []int {
 		var out []int
 		for _, b := range baseIDs {
-			if c.App.Erc20Keeper.IsDenomRegistered(c.Ctx, denomName[b]) {
+			if w.c.App.Erc20Keeper.IsDenomRegistered(w.c.Ctx, denomName[b]) {
 				out = append(out, b)
 			}
 		}
@@ -407,11 +454,29 @@ func execIndex(c *lib.Chain, h *IHistory, r *lib.Rand, fixed []IOp, rep *lib.Rep
 		} else {
 			accepted++
 		}
-		dump, d := w.dump(c.Ctx)
-		steps = append(steps, fmt.Sprintf("(%s, %s, %s)", o.Coq(), lib.Bool(o.OK), dump))
+		dump, d := w.dump(w.c.Ctx)
 		h.Ops = append(h.Ops, o)
+		if o.K == "Fund" {
+			continue // no registry operation: not a model step
+		}
+		steps = append(steps, fmt.Sprintf("(%s, %s, %s)", o.Coq(), lib.Bool(o.OK), dump))
 		rep.Count("idx:" + o.K + ":" + map[bool]string{true: "ok", false: "rej"}[o.OK])
+		if o.K == "ExportImport" && o.OK {
+			d.bad = append(d.bad, w.rawCheck(w.c.Ctx)...) // every pair of the store, also those outside the universe (FX, scale pairs)
+		}
+		if o.K == "ExportImport" && o.OK {
+			imported = true
+		}
 		for _, bad := range d.check() {
+			if imported && strings.Contains(bad, "which the alias index does not map to it") {
+				// (C08-2) the alias index is not part of the erc20 genesis: empty after an import while the bank metadata keeps the aliases
+				if !aliasLost {
+					aliasLost = true
+					rep.Fail(lib.Failure{Kind: "monitor", What: "after a genesis export + import (" + o.Coq() + "): " + bad + " — the erc20 genesis carries params and pairs only, the alias index is neither exported nor rebuilt",
+						Sig: "C08:export-import:alias-index-lost", Replay: map[string]interface{}{"part": "index", "history": h}})
+				}
+				continue
+			}
 			rep.Fail(lib.Failure{Kind: "monitor", What: "erc20 indexes inconsistent after " + o.Coq() + ": " + bad,
 				Sig: "C08:indexes:" + o.K, Replay: map[string]interface{}{"part": "index", "history": h}})
 			break
@@ -427,6 +492,110 @@ func execIndex(c *lib.Chain, h *IHistory, r *lib.Rand, fixed []IOp, rep *lib.Rep
 		E = append(E, 500+i)
 	}
 	return fmt.Sprintf("mk_icase %s %s\n   %s", ints(denomIDs), ints(E), lib.List(steps))
+}
+
+type rawReg struct {
+	lines []string             // "denom erc20 enabled owner" of every pair in the pair store, sorted
+	owned []string             // denoms of the module-owned pairs
+	books map[string][2]string // denom -> (escrow, ERC-20 totalSupply)
+}
+
+// rawPairs reads the whole pair store of chain c (not only the universe of the model) and the books of module-owned pairs.
+func (w *idxWorld) rawPairs(c *lib.Chain, ctx sdk.Context) *rawReg {
+	r := &rawReg{books: map[string][2]string{}}
+	for _, kv := range c.DumpPrefix(ctx, erc20types.StoreKey, erc20types.KeyPrefixTokenPair) {
+		var p erc20types.TokenPair
+		c.App.AppCodec().MustUnmarshal(kv.V, &p)
+		r.lines = append(r.lines, fmt.Sprintf("%s %s enabled=%v owner=%d", p.Denom, p.Erc20Address, p.Enabled, p.ContractOwner))
+		if p.IsNativeCoin() {
+			holder := sdk.AccAddress(lib.ModuleAcc(erc20types.ModuleName))
+			if p.Denom == fxtypes.DefaultDenom {
+				holder = p.GetERC20Contract().Bytes()
+			}
+			r.owned = append(r.owned, p.Denom)
+			r.books[p.Denom] = [2]string{c.Bal(ctx, holder, p.Denom).String(), c.ERC20TotalSupply(ctx, p.GetERC20Contract()).String()}
+		}
+	}
+	sort.Strings(r.lines)
+	sort.Strings(r.owned)
+	return r
+}
+
+func diffLines(a, b []string) string {
+	in := func(l []string) map[string]bool {
+		m := map[string]bool{}
+		for _, x := range l {
+			m[x] = true
+		}
+		return m
+	}
+	ma, mb := in(a), in(b)
+	var out []string
+	for _, x := range a {
+		if !mb[x] {
+			out = append(out, "lost: "+x)
+		}
+	}
+	for _, x := range b {
+		if !ma[x] {
+			out = append(out, "new: "+x)
+		}
+	}
+	if len(a) != len(b) && len(out) == 0 {
+		out = append(out, "a pair is stored more than once")
+	}
+	if len(out) > 4 {
+		out = append(out[:4], fmt.Sprintf("... (%d differences)", len(out)))
+	}
+	return strings.Join(out, "; ")
+}
+
+// rawCheck: the three erc20 indexes over ALL pairs: every pair is reachable through its denom and its contract, every
+// index entry leads to a pair with that denom / contract, no denom and no contract belongs to two pairs.
+func (w *idxWorld) rawCheck(ctx sdk.Context) []string {
+	c := w.c
+	var out []string
+	byID := map[string]erc20types.TokenPair{}
+	denoms, ercs := map[string]string{}, map[string]string{}
+	for _, kv := range c.DumpPrefix(ctx, erc20types.StoreKey, erc20types.KeyPrefixTokenPair) {
+		var p erc20types.TokenPair
+		c.App.AppCodec().MustUnmarshal(kv.V, &p)
+		byID[string(kv.K[1:])] = p
+		if o, dup := denoms[p.Denom]; dup {
+			out = append(out, fmt.Sprintf("denom %s belongs to two pairs (%s and %s)", p.Denom, o, p.Erc20Address))
+		}
+		denoms[p.Denom] = p.Erc20Address
+		if o, dup := ercs[p.Erc20Address]; dup {
+			out = append(out, fmt.Sprintf("contract %s belongs to two pairs (%s and %s)", p.Erc20Address, o, p.Denom))
+		}
+		ercs[p.Erc20Address] = p.Denom
+	}
+	nd, ne := 0, 0
+	for _, kv := range c.DumpPrefix(ctx, erc20types.StoreKey, erc20types.KeyPrefixTokenPairByDenom) {
+		nd++
+		if p, ok := byID[string(kv.V)]; !ok || p.Denom != string(kv.K[1:]) {
+			out = append(out, "denom index entry "+string(kv.K[1:])+" does not lead to a pair of that denom")
+		}
+	}
+	for _, kv := range c.DumpPrefix(ctx, erc20types.StoreKey, erc20types.KeyPrefixTokenPairByERC20) {
+		ne++
+		if p, ok := byID[string(kv.V)]; !ok || !bytes.Equal(p.GetERC20Contract().Bytes(), kv.K[1:]) {
+			out = append(out, "contract index entry "+common.BytesToAddress(kv.K[1:]).Hex()+" does not lead to a pair of that contract")
+		}
+	}
+	for id, p := range byID {
+		if v := ctx.KVStore(c.App.GetKey(erc20types.StoreKey)).Get(append(append([]byte{}, erc20types.KeyPrefixTokenPairByDenom...), []byte(p.Denom)...)); string(v) != id {
+			out = append(out, "pair "+p.Denom+" / "+p.Erc20Address+" is not what the denom index holds for "+p.Denom)
+		}
+		if v := ctx.KVStore(c.App.GetKey(erc20types.StoreKey)).Get(append(append([]byte{}, erc20types.KeyPrefixTokenPairByERC20...), p.GetERC20Contract().Bytes()...)); string(v) != id {
+			out = append(out, "pair "+p.Denom+" / "+p.Erc20Address+" is not what the contract index holds for its contract")
+		}
+	}
+	if nd != len(byID) || ne != len(byID) {
+		out = append(out, fmt.Sprintf("%d pairs, %d denom index entries, %d contract index entries", len(byID), nd, ne))
+	}
+	sort.Strings(out)
+	return out
 }
 
 func names(ids []int) []string {
@@ -492,6 +661,54 @@ func (w *idxWorld) exec(o *IOp) error {
 			_, err := c.App.Erc20Keeper.UpdateDenomAlias(ctx, msg)
 			return err
 		})
+	case "Fund":
+		// live books: the user gets coins of a registered module-owned denom (or FX) and converts part of them
+		dn := fxtypes.DefaultDenom
+		if o.Denom != 0 {
+			dn = denomName[o.Denom]
+		}
+		return c.Try(func(ctx sdk.Context) error {
+			pair, ok := c.App.Erc20Keeper.GetTokenPair(ctx, dn)
+			if !ok || !pair.IsNativeCoin() {
+				return errors.New("no module-owned pair")
+			}
+			cs := sdk.NewCoins(sdk.NewCoin(dn, sdkmath.NewInt(1000)))
+			if err := c.App.BankKeeper.MintCoins(ctx, "mint", cs); err != nil {
+				return err
+			}
+			if err := c.App.BankKeeper.SendCoinsFromModuleToAccount(ctx, "mint", w.user.Acc(), cs); err != nil {
+				return err
+			}
+			_, err := c.App.Erc20Keeper.ConvertCoin(ctx, &erc20types.MsgConvertCoin{Coin: sdk.NewCoin(dn, sdkmath.NewInt(400)),
+				Receiver: w.user.Hex().Hex(), Sender: w.user.Acc().String()})
+			return err
+		})
+	case "ExportImport":
+		if !w.own {
+			return errors.New("export/import needs a chain of its own")
+		}
+		fail := func(sig, what string) {
+			w.rep.Fail(lib.Failure{Kind: "monitor", What: what, Sig: sig, Replay: map[string]interface{}{"part": "index", "history": w.h}})
+		}
+		nc, err := c.ExportImport()
+		if err != nil {
+			fail("C08:export-import:refused", "the application cannot be restarted from its own exported genesis: "+err.Error())
+			return err
+		}
+		// what was committed before the export (c is now at the exported state) against what the new chain holds
+		before, after := w.rawPairs(c, c.Ctx), w.rawPairs(nc, nc.Ctx)
+		if d := diffLines(before.lines, after.lines); d != "" {
+			fail("C08:export-import:pairs-changed", fmt.Sprintf("the set of registered token pairs changed across genesis export + import (%d pairs before, %d after): %s", len(before.lines), len(after.lines), d))
+		}
+		for _, k := range before.owned {
+			b, a := before.books[k], after.books[k]
+			if a != b || a[0] != a[1] {
+				fail("C08:export-import:books", fmt.Sprintf("pair %s: (escrowed coins, ERC-20 totalSupply) = (%s, %s) before the export and (%s, %s) after the import", k, b[0], b[1], a[0], a[1]))
+				break
+			}
+		}
+		w.c = nc
+		return nil
 	case "Remove":
 		// the pair's contract self-destructs (account deleted at the end of that EVM transaction); the next conversion
 		// attempt removes the pair and returns nil to persist the removal
@@ -799,7 +1016,7 @@ func replay(c *lib.Chain, x *lib.XChain, rep *lib.Report) {
 	lib.Must(json.Unmarshal(b, &doc))
 	switch doc.Replay.Part {
 	case "index":
-		h := &IHistory{Seed: doc.Replay.History.Seed}
+		h := &IHistory{Seed: doc.Replay.History.Seed, Own: doc.Replay.History.Own, Extra: doc.Replay.History.Extra}
 		execIndex(c, h, lib.NewRand(h.Seed), doc.Replay.History.Ops, rep)
 		for _, o := range h.Ops {
 			fmt.Printf("%-50s ok=%v %s\n", o.Coq(), o.OK, o.Err)
